@@ -150,7 +150,7 @@ theorem delayed_close_noop (c : Conn) :
     (c.st = .kConnecting → fireDelay c = c) := by
   refine ⟨?_, ?_, ?_⟩
   · intro h
-    have hw : forceCloseDelayHold = Hold.weak := by decide   -- the timer holds a weak callback (extracted)
+    have hw : forceCloseDelayHold.eff weakCallbackLocks = Hold.weak := by decide   -- the timer holds a weak callback that locks before it calls (extracted)
     simp [fireDelay, h, hw]
   · intro h; unfold fireDelay; split
     · simp [actLoop, act, forceCloseAccepts, h]
@@ -190,5 +190,17 @@ theorem statement_order_tied :
     Gen.ConnSkel.handleError = ConnSkel.Decl.handleError ∧
     Gen.ConnSkel.handleEventWithGuard = ConnSkel.Decl.handleEventWithGuard :=
   ConnSkel.skeletons_agree
+
+/-- T1, the weak functors: `WeakCallback::operator()` (what `makeWeakCallback(shared_from_this(), &TcpConnection::f)`
+runs: `shutdown()`'s and the drain path's `shutdownInLoop`, a `send()` from another thread, `startRead/stopRead`, the
+delayed forced close) and the notification trampolines lock the weak pointer, test the result and only then call,
+on the locked object (`weakCallbackLocks`, `notifyLocks`: extracted; the model's "a weak functor whose object is
+gone does nothing" - `delayed_close_noop`, `runTask` - uses them through `Hold.eff`), and the statement skeleton of
+`WeakCallback::operator()` is the one `Model/ConnSkelDecl.lean` declares -/
+theorem weak_functors_lock_first :
+    weakCallbackLocks = true ∧ notifyLocks = true ∧
+    (∀ t : Task, t.hold ≠ .raw) ∧
+    Gen.ConnSkel.weakCallbackCall = ConnSkel.Decl.weakCallbackCall :=
+  ⟨rfl, rfl, no_raw, ConnSkel.skeleton_weakCallbackCall⟩
 
 end MuduoVerif.C03
